@@ -7,7 +7,7 @@ PROP = dict(
               "composite_limits_eq_recursive", "has_limits_unique", "composite_limits_overflow_reported",
               "maxp_simple_maxima", "head_bbox_is_union", "composite_bbox_covers",
               "composite_bbox_strict_refuted", "loca_short_roundtrips", "loca_long_needed",
-              "xavg_counts_all_glyphs", "xavg_exact_is_rounded_mean", "xavg_exact_for_precise_rounding",
+              "xavg_counts_all_glyphs", "xavg_exact_is_rounded_mean", "xavg_f64_is_rounded_mean", "xavg_exact_for_precise_rounding",
               "first_last_char_index", "unicode_range_bits_correct", "codepage_bits_set_only",
               "max_context_is_max", "check_font_sound"],
     prelude="Require Import FV.C17.Model.\nFrom Coq Require Import List NArith ZArith QArith Bool.",
@@ -30,7 +30,7 @@ PROP = dict(
                   "Rust harness /verif/harness (vh c17): its own glyf/hmtx/hhea/maxp/head/OS2 decoder; read-fonts "
                   "for cmap, GSUB, GPOS",
                   "the Unicode-range table in the model is compared with the one parsed from os2.rs on every run"],
-    assumptions=["f64 modelled by Q (composite boxes) and by rounding Q to 53 significant bits where rounding matters (xAvgCharWidth); that this rounding is monotone and exact on the 2^-20 grid is a hypothesis of xavg_exact_for_precise_rounding, not proved for the executable model",
+    assumptions=["f64 modelled by Q (composite boxes) and by rounding Q to 53 significant bits where rounding matters (xAvgCharWidth: fp_round 53, ties to even; subnormals, infinities and exponent range are not modelled — irrelevant below 2^33)",
                  "HashMap/HashSet iteration order = an arbitrary list order (theorems quantify over it)",
                  "i32 intermediate arithmetic of MetricsBuilder modelled in Z (no overflow for |bounds| <= 65535)",
                  "simple glyphs have fewer than 65536 points and contours (glyf format limit)",
